@@ -679,7 +679,12 @@ pub fn run(rep: &mut Report) {
             // ------------------------------------------------------------ compiled-data layer: ZonedDateTime
             8 => {
                 let mut tzid = *r.pick(&TZS);
-                let t = match r.below(6) {
+                let t = match r.below(7) {
+                    // within two days of either end of the instant range (the first / last representable local day)
+                    6 => {
+                        let side: i128 = if r.bool() { 1 } else { -1 };
+                        side * (MAX_INSTANT - *r.pick(&[0i128, 1, 3_600_000_000_000, 19_800_000_000_000, 28_800_000_000_000, 86_399_999_999_999, 86_400_000_000_000, 90_000_000_000_000]) - if r.bool() { 0 } else { r.range128(0, 172_800_000_000_000) })
+                    }
                     // within a day and a half of a transition of any zone of the database (days whose midnight is skipped or
                     // repeated, short and long days): the wrappers must forward to exactly their own core method there too
                     5 if !midnight_gaps.is_empty() => {
